@@ -92,6 +92,72 @@ static bool interrupt_stress(unsigned millis) {
     if (bad || g_isr_bad) { vp::fail("interrupted:value", vp::fmt("%lu main-line results and %u handler results differ from the reference while a timer handler that calls ufw_crc16_arc interrupts the main line (e.g. a buffer of %zu octets)", bad, (unsigned)g_isr_bad, badlen), "interrupt-stress\n"); return false; }
     return true;
 }
+// Preemption sweep: the harness owns the schedule. A child process (fresh: the library has not been called in it since the fork, and the
+// parent runs this phase before it calls the library at all) single-steps one call with the x86 trap flag; at instruction k the SIGTRAP
+// handler stops stepping and calls the checksum functions on a buffer of its own, then the interrupted call continues. Both results are
+// compared with the reference. k sweeps over the whole call, so every point at which an interrupt handler could run is tried once -
+// for the very first call in the process (lazily built tables) and for a later one.
+#if defined(__x86_64__)
+#include <sys/wait.h>
+#include <ucontext.h>
+static volatile long g_step, g_target; static volatile int g_fired, g_nested_bad;
+static uint16_t g_nbuf[40]; static uint16_t g_nwant_w, g_nwant_o;
+static void trap_handler(int, siginfo_t *, void *ucv) {
+    if (++g_step != g_target) return;
+    ucontext_t *uc = (ucontext_t *)ucv;
+    uc->uc_mcontext.gregs[REG_EFL] &= ~0x100L;          // the interrupted call runs on at full speed
+    g_fired = 1;
+    uint16_t w = ufw_crc16_arc_u16(0x2b1d, g_nbuf, 40), o = ufw_crc16_arc(0x2b1d, g_nbuf, 77);
+    if (w != g_nwant_w || o != g_nwant_o) g_nested_bad = 1;
+}
+// returns: 0 fine, 1 the interrupted call is wrong, 2 the nested call is wrong, 4 k is beyond the end of the call, 8 infrastructure
+static int sweep_child(int variant, bool warm, long k) {
+    pid_t pid = fork();
+    if (pid < 0) return 8;
+    if (pid == 0) {
+        static uint16_t buf[24];
+        for (int i = 0; i < 24; i++) buf[i] = (uint16_t)(0x1357 * (i + 3));
+        for (int i = 0; i < 40; i++) g_nbuf[i] = (uint16_t)(0x9e37 * (i + 1));
+        g_nwant_w = ref::crc16_arc(0x2b1d, (const uint8_t *)g_nbuf, 80); g_nwant_o = ref::crc16_arc(0x2b1d, (const uint8_t *)g_nbuf, 77);
+        uint16_t want = variant == 0 ? ref::crc16_arc(0x0a0b, (const uint8_t *)buf, 48) : ref::crc16_arc(0x0a0b, (const uint8_t *)buf, 45);
+        if (warm) { (void)ufw_crc16_arc_u16(1, buf, 24); (void)ufw_crc16_arc(1, buf, 48); }
+        struct sigaction sa; memset(&sa, 0, sizeof sa); sa.sa_sigaction = trap_handler; sa.sa_flags = SA_SIGINFO; sigemptyset(&sa.sa_mask);
+        sigaction(SIGTRAP, &sa, nullptr);
+        g_step = 0; g_target = k; g_fired = 0; g_nested_bad = 0;
+        uint16_t got;
+        __asm__ volatile("pushfq\n\torq $0x100, (%%rsp)\n\tpopfq" ::: "cc", "memory");
+        got = variant == 0 ? ufw_crc16_arc_u16(0x0a0b, buf, 24) : ufw_crc16_arc(0x0a0b, buf, 45);
+        __asm__ volatile("pushfq\n\tandq $~0x100, (%%rsp)\n\tpopfq" ::: "cc", "memory");
+        int rc = 0;
+        if (!g_fired) rc |= 4;
+        if (got != want) rc |= 1;
+        if (g_nested_bad) rc |= 2;
+        _exit(rc);
+    }
+    int st = 0;
+    if (waitpid(pid, &st, 0) != pid || !WIFEXITED(st)) return 8;
+    return WEXITSTATUS(st);
+}
+static void preemption_sweep() {
+    static const char *vn[2] = {"ufw_crc16_arc_u16", "ufw_crc16_arc"};
+    for (int warm = 0; warm < 2; warm++) for (int variant = 0; variant < 2; variant++) {
+        long tried = 0, bad_at = -1; int bad = 0;
+        for (long k = 1; k < 200000; k += (k < 96 ? 1 : 7)) {
+            int rc = sweep_child(variant, warm, k);
+            if (rc & 8) { vp::stats().notes["preemption_sweep"] = "fork/wait failed: phase skipped"; return; }
+            if (rc & 4) break;
+            tried++; vp::alive();
+            if ((rc & 3) && bad_at < 0) { bad_at = k; bad = rc & 3; }
+        }
+        vp::count((uint64_t)tried); vp::cls(std::string("preemption-points:") + vn[variant] + (warm ? ":later-call" : ":first-call-in-the-process"), (uint64_t)tried);
+        vp::nontrivial(vp::mix((uint64_t)tried, 424200 + (uint64_t)(variant * 2 + warm)));
+        if (bad_at >= 0) vp::fail(std::string("preempted:") + (warm ? "later-call" : "first-call"), vp::fmt("%s interrupted at instruction %ld of %s by a handler that checksums its own buffer: %s result differs from the reference",
+                                                                 vn[variant], bad_at, warm ? "a later call" : "the first call in the process", bad & 1 ? "the interrupted call's" : "the handler's"), "preemption-sweep\n");
+    }
+}
+#else
+static void preemption_sweep() {}
+#endif
 static void run() {
     auto &a = vp::args();
     vp::Rng rng(a.seed * 7919 + a.shard);
@@ -99,9 +165,10 @@ static void run() {
 #ifdef VP_FAST
     fast = true;
 #endif
+    if (!fast && a.shard == 0 && !vp::vg().on) preemption_sweep();   // first: the library has not been called in this process yet
     if (!fast && a.shard == a.nshards - 1 && !vp::vg().on) interrupt_stress(a.thorough() ? 6000 : 1200);
     if (!fast) {
-        vp::stats().rule = "enum: all 2^24 (state, octet) pairs of the update step; known check value; random buffers <= 4 KiB split at every position; buffers of 2^8/2^15/2^16/2^17 (+-1,2) octets and words; word buffers of every length 0..64 from random states; every buffer again after an in-place change (identical arguments) and at an odd start address; every 4-octet buffer over {state low, state high, 00, ff, low^1} from every state; messages followed by their own checksum and zero padding; 1.2 s (thorough 6 s) of calls interrupted every 150 us by a timer handler that checksums its own buffer";
+        vp::stats().rule = "enum: all 2^24 (state, octet) pairs of the update step; known check value; random buffers <= 4 KiB split at every position; buffers of 2^8/2^15/2^16/2^17 (+-1,2) octets and words; word buffers of every length 0..64 from random states; every buffer again after an in-place change (identical arguments) and at an odd start address; every 4-octet buffer over {state low, state high, 00, ff, low^1} from every state; messages followed by their own checksum and zero padding; a single-stepped preemption sweep (a handler that checksums runs at every instruction of the first and of a later call); 1.2 s (thorough 6 s) of calls interrupted every 150 us by a timer handler that checksums its own buffer";
         vp::stats().exhaustive = true;
         // (1) all (state, octet) pairs, dealt to shards by state
         static uint32_t cur_st, cur_o;
@@ -211,6 +278,7 @@ static void run() {
 static bool replay(const std::string &text) {
     auto w = vp::split(vp::lines(text).at(0));
     if (!w.empty() && w[0] == "interrupt-stress") return interrupt_stress(3000);
+    if (!w.empty() && w[0] == "preemption-sweep") { preemption_sweep(); return vp::stats().failures.empty(); }
     if (w.size() < 4 || w[0] != "crc") return false;
     uint16_t st = (uint16_t)strtoul(w[1].c_str(), 0, 10);
     std::vector<uint8_t> buf = w[2] == "-" ? std::vector<uint8_t>() : vp::unhex(w[2]);
